@@ -36,6 +36,8 @@ def gen(seed, tier):
     r = random.Random(seed ^ 0xC10)
     local_method_scenario(pl, r, seed)
     sp = pl["sprout"]
+    if "generator" in sp and seed % 5 == 2:
+        sp["deme_filters"].insert((seed // 5) % (len(sp["deme_filters"]) + 1), {"kind": "functional"})
     if "generator" in sp:
         if sp["generator"]["kind"] == "best" and r.random() < 0.5:
             sp["generator"] = {"kind": "nbc", "distance_factor": r.choice([0.5, 0.8, 1.0, 1.5]),
